@@ -904,6 +904,11 @@ def run(tier='quick', replay=None):
         try:
             ns = TS.NumSim(core.REPO)
             texts['NumSimGen.v'] = ns.text()
+            for msg_ in ns.soft_errors:
+                # the per-step structure of the simulator changed: the model (new inverse of the stamped matrix with the
+                # conductances of THIS step) is no longer known to describe it
+                res.failed_obl.append(('translate_numsim_structure', 'lcapy/simulator.py', msg_))
+                res.obligations += 1
         except TS.Untranslatable as e:
             res.failed_obl.append(('translate_numsim', 'lcapy/simulator.py|mnacpts.py|sexpr.py', str(e)))
             res.obligations += 1
